@@ -38,7 +38,9 @@ META = dict(
     tie_theorems=[],
     rule='case = (crystal, chemistry, jump network at a neighbour cutoff or malformed variant, N / Nthermo, originstates); '
          'StarSet-level: omega1/omega2 of StarSet(N); VM-level: VacancyMediated(Nthermo in 1..2) om1_jn/om2_jn/jt/SP and '
-         'omegalist(); non-trivial = at least 2 omega1 classes; distinct by request text',
+         'omegalist(); object-reuse histories on one StarSet (networks asked, object changed in place by +=, generate, '
+         'diffgenerate, networks asked again; direct oracle + comparison with a fresh object); non-trivial = at least 2 '
+         'omega1 classes; distinct by request text',
     trusted=['harness/props/c24.py exact extraction (shared with C24)'],
     assumptions=['jump networks passed to VacancyMediated are the symmetric ones produced by crys.jumpnetwork'],
 )
@@ -270,6 +272,75 @@ def starset_case(ctx, B, E, name, classes, N, origin, kind):
     ctx.count('proper' if proper else ('closed-improper' if closed else 'not-G-closed'))
 
 
+def reuse_case(ctx, E, name, classes, hist, kind):
+    """Object-reuse history on ONE StarSet: networks asked, the object changed in place by a mutating operation of the
+    class (`+=`, generate with another range / origin flag, diffgenerate into it), networks asked again.  The second
+    answer must satisfy the property for the states the object now holds (direct oracle: every allowed transition in
+    exactly one class, ...) and equal the answer of a fresh object holding the same states."""
+    op, N1, N2, o1, o2 = hist
+    what = '%s reuse-history [networks; %s; networks] N=%d->%d origin=%d->%d %s' % (name, op, N1, N2, o1, o2, kind)
+    replay = dict(crystal=name, chem=E.chem, lattice=repr(E.crys.lattice.tolist()),
+                  basis=repr([[list(map(float, u)) for u in b] for b in E.crys.basis]),
+                  jumpnetwork_lattice_form=classes, history=dict(op=op, N1=N1, N2=N2, origin1=o1, origin2=o2), network=kind)
+    closed = K.is_G_closed(E, [s for c in classes for s in c])
+    try:
+        S = K.make_starset(E, classes, N1, o1)
+        S.jumpnetwork_omega1(); S.jumpnetwork_omega2()          # first use
+        other = K.make_starset(E, classes, N2, o2)
+        if op == 'iadd':
+            S += other
+            fresh = K.make_starset(E, classes, N1, o1) + K.make_starset(E, classes, N2, o2)     # never asked for networks
+        elif op == 'generate':
+            S.generate(N2, originstates=o2)
+            fresh = K.make_starset(E, classes, N2, o2)
+        else:   # diffgenerate into the used object
+            A, Bs = K.make_starset(E, classes, N1, o1), other
+            S.diffgenerate(A, Bs)
+            fresh = A.copy(empty=True); fresh.diffgenerate(A, Bs)
+        keys, _ = K.impl_view(S)
+        fkeys, _ = K.impl_view(fresh)
+        trips = (S.jumpnetwork_omega1(), S.jumpnetwork_omega2())
+        again = (S.jumpnetwork_omega1(), S.jumpnetwork_omega2())
+        ftrips = (fresh.jumpnetwork_omega1(), fresh.jumpnetwork_omega2())
+    except Exception as e:
+        ctx.violation('reuse:%s:raises:%s' % (op, type(e).__name__), '%s raised %r' % (what, e), replay)
+        return
+    same_states = sorted(keys) == sorted(fkeys)
+    if not same_states:
+        if op == 'generate' and N1 == N2 and o1 != o2:
+            # generate() returns early when the range is unchanged and silently ignores the origin-state flag
+            ctx.violation('reuse:generate:origin-flag-ignored',
+                          '%s: generate(%d, originstates=%s) on an object generated with originstates=%s leaves %d states, a fresh object has %d'
+                          % (what, N2, bool(o2), bool(o1), len(keys), len(fkeys)), replay)
+        else:
+            ctx.violation('reuse:%s:states-differ' % op, '%s: the reused object holds %d states, a fresh one %d' % (what, len(keys), len(fkeys)), replay)
+            return
+    nbefore = len(ctx.violations)
+    for kd, trip, ftrip, ag in ((1, trips[0], ftrips[0], again[0]), (2, trips[1], ftrips[1], again[1])):
+        # the direct statement of the property for the states the object holds now
+        oracle_network(ctx, E, S, keys, classes, trip, kd, what, replay, closed and op != 'diff', proper=True)
+        # the same classes (partition, jump types), star pairs as stars, as a fresh object holding the same states
+        def view(S_, keys_, trip_):
+            if trip_ == []: return []
+            net = impl_net(keys_, trip_)
+            starkeys = [tuple(sorted(keys_[x] for x in st)) for st in S_.stars]
+            return sorted(((c['jt'], tuple(sorted(((a, b) for a, b, _ in c['entries']), key=_key_none)),
+                            (starkeys[c['sp'][0]], starkeys[c['sp'][1]])) for c in net), key=repr)
+        v, fv, av = view(S, keys, trip), view(fresh, fkeys, ftrip), view(S, keys, ag)
+        if not same_states:
+            continue
+        if v != fv:
+            nj, fnj = sum(len(c[1]) for c in v), sum(len(c[1]) for c in fv)
+            ctx.violation('reuse:%s:omega%d:differs-from-fresh' % (op, kd),
+                          '%s: omega%d has %d classes / %d jumps on the reused object, %d / %d on a fresh object with the same states'
+                          % (what, kd, len(v), nj, len(fv), fnj), replay)
+        elif av != v:
+            ctx.violation('reuse:%s:omega%d:second-call-differs' % (op, kd), '%s: asking omega%d twice gives different networks' % (what, kd), replay)
+    ctx.case(('reuse', name, E.chem, tuple(map(tuple, classes)), hist), nontrivial=len(keys) > 2,
+             sample=dict(case=what, nstates=len(keys)) if len(ctx.violations) == nbefore else None)
+    ctx.count('reuse-history:' + op)
+
+
 def vm_case(ctx, B, E, name, classes, Nthermo, kind):
     from onsager import OnsagerCalc
     what = '%s VacancyMediated Nthermo=%d %s' % (name, Nthermo, kind)
@@ -337,7 +408,7 @@ def run(ctx, search_mode=False):
         rc = K.random_crystal(rng)
         if rc is not None: crystals.append(rc)
     for ncrys, (name, crys, chem) in enumerate(crystals):
-        if ncrys >= 4 and (time.time() - t_run > (25 if ctx.quick else 600) or ctx.budget_left() < (60 if ctx.quick else 500)):
+        if ncrys >= 4 and (time.time() - t_run > (40 if ctx.quick else 600) or ctx.budget_left() < (60 if ctx.quick else 500)):
             ctx.note('budget: stopped before ' + name); break
         E = K._exact_or_note(ctx, crys, chem, name)
         if E is None: continue
@@ -356,6 +427,19 @@ def run(ctx, search_mode=False):
                 if N == 3 and (heavy or (ctx.quick and njump > 8)): continue
                 for origin in ((False, True) if N == 1 else (rng.random() < 0.5,)):
                     starset_case(ctx, B, E, name, classes, N, origin, label)
+            # object-reuse histories on one StarSet (networks; in-place change; networks)
+            if K.is_proper(E, classes):
+                if ctx.quick:
+                    hists = [('iadd', 1, 1, False, False), ('generate', 2, 1, True, False)] if heavy else \
+                        [('iadd', 1, 1, False, False), ('generate', 1, 2, False, True), ('generate', 1, 1, False, True),
+                         ('diff', 1, 1, False, False)]
+                else:
+                    hists = [('iadd', 1, 1, False, False), ('generate', 1, 2, False, True), ('generate', 2, 1, True, False),
+                             ('diff', 1, 1, False, False), ('iadd', 2, 1, True, True), ('generate', 1, 1, False, True)]
+                    if not heavy:
+                        hists += [('iadd', 1, 2, False, False), ('diff', 2, 1, True, False), ('generate', 2, 3, False, False)]
+                for h in hists:
+                    reuse_case(ctx, E, name, classes, h, label)
             # VacancyMediated level, pruned
             for Nthermo in (1, 2):
                 if Nthermo == 2 and ((ctx.quick and njump * E.n > 8) or njump * E.n > 40): continue
